@@ -42,7 +42,16 @@ ExecFailed(ev) ==
           ELSE {})
     \cup (IF ~Consistent(ev.sched, ev.ran) THEN {"machinery/schedule_not_enforced"} ELSE {})
 
+(* a failing worker: the gene finder refuses one record of the batch (via "pre_process_error").  before = the error the
+   steps raise when applied in this process; after = what the whole pre-processing step does for the configured number
+   of workers, "Hang" when it had not come back after a generous deadline *)
+FailingTransportFailed(ev) ==
+    (IF ev.after.exc = "Hang" THEN {ev.via \o "/worker_failure_surfaces_instead_of_hanging"} ELSE {})
+    \cup (IF ev.after.exc = "" THEN {ev.via \o "/worker_failure_surfaces_as_an_error"} ELSE {})
+    \cup (IF ev.after.exc \notin {"", "Hang"} /\ ev.after.exc # ev.before_exc THEN {ev.via \o "/same_error_as_in_process"} ELSE {})
+
 TransportFailed(ev) ==
+    IF ev.via = "pre_process_error" THEN FailingTransportFailed(ev) ELSE
     (IF ev.after.exc # "" THEN {ev.via \o "/no_exception:" \o ev.after.exc} ELSE {})
     \cup (IF ev.after.exc = "" /\ Len(ev.after.v) # Len(ev.before) THEN {ev.via \o "/never_a_shorter_list"} ELSE {})
     \cup (IF ev.after.exc = "" /\ Len(ev.after.v) = Len(ev.before) /\ ev.after.v # ev.before
